@@ -174,7 +174,7 @@ STEP_OPS = [
 ]
 
 
-def steps(tier, ops=None, with_limit=False, tag="", pick=None):
+def steps(tier, ops=None, with_limit=False, tag="", pick=None, cfg="default"):
     """pick: optional set of (name, m) pairs to keep in the quick tier (everything is kept in thorough)"""
     o = []
     for name, root, qm, tm, defs in STEP_OPS:
@@ -191,7 +191,7 @@ def steps(tier, ops=None, with_limit=False, tag="", pick=None):
                 if with_limit:
                     d["WITH_LIMIT"] = 1
                     roots.append("vk_set_limit")
-                o.append(Obl(f"step{tag}_{name}_n{n}_m{m}", "step.c", [U(roots, stubs=stubs)], defs=d, unwind=17,
+                o.append(Obl(f"step{tag}_{name}_n{n}_m{m}", "step.c", [U(roots, cfg, stubs=stubs)], defs=d, unwind=17,
                              maxcpy=16, mem_gb=16, timeout=(600 if tier == Q else 1800), weight=10 + m))
     return o
 
@@ -214,8 +214,18 @@ def for_property(pid, tier):
     return out
 
 
+def ipv6_ser(tier):
+    o = [Obl("ipv6_longest_zero_run", "ipv6_ser.c", [U("vk_ipv6_longest")], defs={"MODE": 0}, unwind=10, mem_gb=6, timeout=300)]
+    o.append(Obl("ipv6_serialize_classes", "ipv6_ser.c", [U("vk_ser_ipv6")], defs={"MODE": 1, "CLASS": 1}, unwind=12, no_heap=False,
+                 helper_unwind=50, maxcpy=48, mem_gb=12, timeout=(400 if tier == Q else 1800), weight=9))
+    if tier != Q:
+        o.append(Obl("ipv6_serialize_all", "ipv6_ser.c", [U("vk_ser_ipv6")], defs={"MODE": 1}, unwind=12, no_heap=False,
+                     helper_unwind=50, maxcpy=48, mem_gb=16, timeout=3000, weight=9, backend="kissat"))
+    return o
+
+
 def prop_C10(tier):
-    return ipv4_kernels(tier) + ser_ipv4(tier) + ipv4_full(tier)
+    return ipv4_kernels(tier) + ser_ipv4(tier) + ipv4_full(tier) + ipv6_ser(tier)
 
 
 def prop_C11(tier):
@@ -223,7 +233,10 @@ def prop_C11(tier):
 
 
 def prop_C18(tier):
-    return xcfg(tier) + ipv4_kernels(tier, "avx512", "_avx512")
+    # development-checks build: every ADA_ASSERT_* is a branch to abort(); from an arbitrary INV state none may fire
+    dev = steps(tier, ops=("clear_port", "clear_hash", "clear_search", "set_port"), tag="_devchecks", cfg="devchecks",
+                pick={("clear_port", 0), ("clear_hash", 0), ("clear_search", 0), ("set_port", 0)})
+    return xcfg(tier) + ipv4_kernels(tier, "avx512", "_avx512") + dev
 
 
 def inv_lemma(tier):
@@ -401,8 +414,21 @@ def prop_C08(tier):
     return canparse(tier)
 
 
+def fastpath(tier):
+    o = []
+    for https in (0, 1):
+        for t in lens(tier, (1, 3, 5), range(0, 8 - https)):
+            d = {"T": t, "BN": 15}
+            if https:
+                d["HTTPS"] = 1
+            o.append(Obl(f"fastpath_{'https' if https else 'http'}_t{t}", "fastpath.c", [U("vk_fast_path", stubs=STR_STUBS)], defs=d,
+                         unwind=17, unwindset=["ref_ipv4_parse.2:4", "ref_ipv4_parse.3:4"], maxcpy=16, mem_gb=12, witness=(t >= 3),
+                         timeout=(300 if tier == Q else 1800), weight=5 + t))
+    return o
+
+
 def prop_C01(tier):
-    return scanners(tier)
+    return scanners(tier) + fastpath(tier) + [x for x in pct_decode(tier) if "plain" in x.name]
 
 
 # properties whose step obligations rest on INV: the native base case (parser results satisfy INV) is run with them
